@@ -252,6 +252,12 @@ func (h *handler1) handleClientPublish(ctx context.Context, snPublish *snPkts1.P
 	default:
 		return fmt.Errorf("invalid topic ID type %d", snPublish.TopicIDType)
 	}
+	// A MQTT PUBLISH topic name must be non-empty and must not contain
+	// wildcards [MQTT-3.3.2-2] (e.g. the short topic "+#" or a topic
+	// REGISTERed as "a/#").
+	if topic == "" || hasWildcard(topic) {
+		return fmt.Errorf("invalid topic name %q", topic)
+	}
 	if snPublish.QOS == 1 {
 		h.transactions.Store(msgID, newClientPublishQOS1Transaction(ctx, h, msgID, snPublish.TopicID))
 	}
